@@ -13,7 +13,7 @@ LEVEL_TEXT = (
     'dtype, or is reached only with equal-dtype groups, and no np.hstack/vstack/append/insert/stack touches data; F3: in resolve_dtype '
     'every np.result_type is dominated by a same-family guard or by the negative guard returning object for str / bool / datetime / '
     'timedelta / object mixes (must-dataflow over the guard atoms); TypeBlocks.append widens the row dtype to object on mismatch; '
-    'prepare_iter_for_array forces object on each mixing flag. Reindex with a fill value: per path, IndexCorrespondence.iloc_src / iloc_dst are read only where has_common / is_subset holds, so labels absent from the source receive the fill value, never another row\'s values. Dtype accumulators: a per-key dtype map filled in a loop merges repeated keys with the resolver, and a dtype that types an array built from a loop-filled list is only widened inside that loop (pivot_stack / pivot_unstack column dtypes). Derived flags: a local recording a fact about an array (any / all / sum / len) is not tested after that array was changed in place (a block is passed through untouched exactly when the narrowed mask is empty). Fill arrays: util.full_for_fill (behind reindex, shift and the aligned axis of concatenation) types its array by resolving the target dtype with the dtype of the fill element on every path. Not decided: numeric promotion inside NumPy (ints above 2**53 to float, '
+    'prepare_iter_for_array forces object on each mixing flag. Reindex with a fill value: per path, IndexCorrespondence.iloc_src / iloc_dst are read only where has_common / is_subset holds, so labels absent from the source receive the fill value, never another row\'s values. Dtype accumulators: a per-key dtype map filled in a loop merges repeated keys with the resolver, and a dtype that types an array built from a loop-filled list is only widened inside that loop (pivot_stack / pivot_unstack column dtypes). Derived flags: a local recording a fact about an array (any / all / sum / len) is not tested after that array was changed in place (a block is passed through untouched exactly when the narrowed mask is empty). Fill arrays: util.full_for_fill (behind reindex, shift and the aligned axis of concatenation) types its array by resolving the target dtype with the dtype of the fill element on every path. Type tests: a class taken with type(v) is never tested by `in` against a tuple holding an abstract NumPy scalar class (equality never matches np.float64 / np.int64). Not decided: numeric promotion inside NumPy (ints above 2**53 to float, '
     'int64+uint64), string width arithmetic of np.result_type — the dtype product is runtime data.')
 
 CLAIM = dict(
@@ -34,3 +34,4 @@ def run(ctx: Ctx) -> None:
     alignrules.correspondence_guards(ctx)
     flowmisc.stale_derived_flag(ctx)
     resolve.f1_full_for_fill(ctx)
+    resolve.type_membership_by_subclass(ctx)
